@@ -100,6 +100,19 @@ CLAIMED["C17"] = dict(
     technique="ownership / typestate rules over MIR path tables (aggregate provenance, effect guards)",
 )
 
+CLAIMED["C14"] = dict(
+    category="other",
+    text=("Structural clauses on the path tables of Polygon / MultiPolygon visit_validation (loops unrolled once, calls uninterpreted): R14.1 "
+          "default methods never overridden and every handler / nested-visit Result is examined (so validation_errors non-empty <=> !is_valid "
+          "by construction); R14.2 every Invalid* value is built under the true edge of its own check applied to the ring(s)/member(s) it "
+          "names, indices and items come from the same enumerate() element and from enumerate() over the whole collection; R14.3 DE-9IM "
+          "constants of the ring/member tests; R14.4 no pair is pre-filtered before relate; R14.5 Geometry delegates to every variant. "
+          "Not decided: that the checks accept exactly the valid polygons (data-dependent)."),
+    design_ref="DESIGN.md §4 C14",
+    note="Trusted: relate (C01); one unrolled iteration represents all iterations. Exactness of acceptance is not claimed.",
+    technique="error/check pairing over MIR path tables + Result-propagation dataflow",
+)
+
 NOT_YET = "rule set not implemented in this revision of /verif (see DESIGN.md §7 build order); nothing is claimed"
 NA = {}
 
